@@ -275,6 +275,13 @@ func (b *Batch) flushStagedAndUpdateFile() error {
 
 // 刷新缓存
 func (b *Batch) flushStaged() error {
+	// 当前活跃文件的剩余空间不足以容纳暂存数据时, 先切换到新的活跃文件
+	if size := b.db.activeFile.Size(); size > 0 && size+b.cachedDataSize+maxFinRecord > b.db.options.DataFileSize {
+		if err := b.db.sync(); err != nil {
+			return err
+		}
+	}
+
 	// 顺序遍历暂存数据依次追加磁盘
 	for _, record := range b.staged {
 		record.BatchID = uint64(b.batchID)
@@ -300,6 +307,8 @@ func (b *Batch) flushStaged() error {
 	// 追加操作全部完成后, 更新索引
 	for i, record := range b.staged {
 		var pos *datafile.DataPos
+		// 维护总数据量
+		b.db.totalSize += int64(dataPos[i].Size)
 		if record.Type == datafile.LogRecordDeleted {
 			pos = b.db.index.Delete(record.Key)
 			b.db.reclaimSize += int64(dataPos[i].Size)
